@@ -970,14 +970,44 @@ pub fn generic_entries<C: Suite>(seed: u64, full: bool) -> Vec<Box<dyn TyDyn + S
     out.push(entry("ProofCommitmentChallenge", g, &x, false, sks.iter().map(|(n, k)| (n.clone(), ProofCommitmentChallenge::<C>(k.0))).collect()));
     let mut pks: Vec<(String, PublicKey<C>)> = sks.iter().map(|(n, k)| (format!("pk of {}", n), k.public_key())).collect();
     pks.push(("identity".into(), PublicKey(id_p)));
+    // keys found by search whose public key / proof of possession has a byte pattern next to what a decoder
+    // special-cases (see common::pattern_keys); the names carry the group of the encoded point
+    let pat: Vec<(String, SecretKey<C>)> = pattern_keys(seed).into_iter().map(|(n, b)| (n, sk_from_be::<C>(&b).unwrap())).collect();
+    let pk_group = if g == "G1" { "G2" } else { "G1" };
+    for (n, k) in &pat {
+        if n.contains(&format!("{} public key", pk_group)) {
+            pks.push((format!("pk of {}", n), k.public_key()));
+        }
+    }
     out.push(entry("PublicKey", g, &x, false, pks.clone()));
     out.push(entry("MultiPublicKey", g, &x, false, pks.iter().map(|(n, k)| (n.clone(), MultiPublicKey::<C>(k.0))).collect()));
     let mut pops: Vec<(String, ProofOfPossession<C>)> = sks.iter().map(|(n, k)| (format!("pop of {}", n), k.proof_of_possession().unwrap())).collect();
+    for (n, k) in &pat {
+        if n.contains(&format!("{} proof of possession", g)) {
+            pops.push((format!("pop of {}", n), k.proof_of_possession().unwrap()));
+        }
+    }
     pops.push(("identity".into(), ProofOfPossession(id_s)));
     out.push(entry("ProofOfPossession", g, &x, false, pops));
     let honest_pt = *x.sigs[0].as_raw_value();
     let mut sigs: Vec<(String, Signature<C>)> = x.sigs.iter().enumerate().map(|(i, s)| (format!("honest {}", SCHEMES3[i].name()), *s)).collect();
     sigs.extend(sc3::<C>(id_s).into_iter().map(|(n, s)| (format!("identity {}", n), s)));
+    // signatures (under the first derived key) found by search for a byte pattern of their encoding
+    {
+        let signer = sk_from_be::<C>(&ka.be[3]).unwrap();
+        let ma = msg_alphabet(seed, false);
+        for (n, m) in ma.names.iter().zip(ma.msgs.iter()) {
+            if !n.contains("content=pattern:") || !n.contains(&format!("{} ", g)) || !n.contains("signature") {
+                continue;
+            }
+            for sch in SCHEMES3 {
+                // (names without a scheme are Basic signatures)
+                if n.contains(&format!("{} {} signature", g, sch.name())) || (sch == Scheme::Basic && n.contains(&format!("{} signature", g))) {
+                    sigs.push((format!("searched: {}", n), signer.sign(lib_scheme(sch), m).unwrap()));
+                }
+            }
+        }
+    }
     out.push(entry("Signature", g, &x, false, sigs.clone()));
     out.push(entry(
         "AggregateSignature",
